@@ -26,16 +26,11 @@
 #define KEY 2
 #endif
 #define ISBLANK(c) ((c) == ' ' || (c) == '\t')
-/* real dbus-string.c, except that strings live in fixed 96-byte buffers taken from a pool (no heap growth: R19) */
-#define _dbus_string_init vf_unused_string_init
-#define _dbus_string_free vf_unused_string_free
 #ifndef CONTRACT
 #define _dbus_string_find_blank vf_real_find_blank
 #define _dbus_string_skip_blank vf_real_skip_blank
 #endif
-#include "/repo/dbus/dbus-string.c"
-#undef _dbus_string_init
-#undef _dbus_string_free
+#include "pool_strings.h"
 #ifndef CONTRACT
 #undef _dbus_string_find_blank
 #undef _dbus_string_skip_blank
@@ -48,16 +43,6 @@ dbus_bool_t _dbus_string_find_blank (const DBusString *s, int start, int *found)
 void _dbus_string_skip_blank (const DBusString *s, int start, int *end)
 { VF_ASSERT (s == vf_data && start == BL && BL >= 0, "blank run skipped from the first blank"); *end = BL + NB; }
 #endif
-#define VF_NSTR 12
-static unsigned char vf_pool[VF_NSTR][96] __attribute__ ((aligned (8))); static int vf_pool_used;
-dbus_bool_t _dbus_string_init (DBusString *str)
-{
-  DBusRealString *r = (DBusRealString *) str;
-  VF_ASSERT (vf_pool_used < VF_NSTR, "string pool large enough (harness bound)");
-  r->str = vf_pool[vf_pool_used++]; r->len = 0; r->allocated = 96; r->constant = 0; r->locked = 0; r->valid = 1; r->align_offset = 0; r->str[0] = 0;
-  return 1;
-}
-void _dbus_string_free (DBusString *str) { DBusRealString *r = (DBusRealString *) str; if (!r->constant) r->valid = 0; }
 #include "/repo/dbus/dbus-auth.c"
 struct DBusCredentials { int kind; };
 static struct DBusCredentials c_socket, c_authorized, c_desired; static int authorized_set, key_kind; static char gh[H];
